@@ -13,6 +13,10 @@ def edge_sig(sig, e, v):
     if e["op"] == "resize_dim" and sig.get("fact_fold"):
         # is the folded buffer (or any buffer) viewed through a window with an interval coordinate?
         sig["fact_source_has_interval_window"] = bool(re.search(r"\w+\[[^\]\n]*:[^\]\n]*\]", ta))
+    if e["op"] in ("fission", "autofission"):
+        # does an if statement of the source test a configuration field (its value can be changed by the first
+        # half of a split body)?
+        sig["fact_if_guard_reads_config"] = bool(re.search(r"^\s*if [^\n]*\b[A-Za-z_]\w*\.[A-Za-z_]\w*", ta, re.M))
     if e["op"] == "sink_alloc":
         # was the allocation sunk into an if statement that has an else branch?
         sig["fact_into_if_else"] = bool(re.search(r"^\s*else:\n\s*\w+: \w+(\[.*\])? @", tb, re.M))
